@@ -30,7 +30,7 @@ Definition m_transpose_sl (c : schunk) : res lsarr :=
       let o := rebase (offs (farr f0)) in
       let e := last o 0 in
       Ok {| ls_offs := o;
-            ls_valid := repeat true (length o - 1);   (* no mask passed *)
+            ls_valid := svalid c;                      (* mask = array.is_null() *)
             ls_svalid := repeat true e;
             ls_children := map (fun f => (fname f, fty f,
                                           firstn e (skipn (hd 0 (offs (farr f))) (child (farr f)))))
@@ -53,7 +53,7 @@ Definition m_transpose_ls (a : lsarr) : schunk :=
   sc_from_arrays
     (map (fun k => {| fname := fst (fst k); fty := snd (fst k);
                       farr := la_from_arrays (ls_offs a) (snd k) |}) flat)
-    None.
+    (Some (map negb (ls_valid a))).
 
 (* ---------- construction ---------- *)
 
@@ -84,7 +84,7 @@ Definition m_list_lengths (p : chunked) : res (list nat) :=
   | cs =>
       fold_right (fun c acc =>
                     res_bind (m_transpose_sl c) (fun a =>
-                    res_bind acc (fun t => Ok (diffs (ls_offs a) ++ t))))
+                    res_bind acc (fun t => Ok (map2 (fun d (v : bool) => if v then d else 0) (diffs (ls_offs a)) (ls_valid a) ++ t))))
                  (Ok []) cs
   end.
 
